@@ -800,6 +800,7 @@ func Run(ctx *core.Ctx) {
 		ctx.Fatal("%v", err)
 	}
 	crossKeyProbe(ctx, bin)
+	noPositionProbe(ctx, bin)
 	nCfg := ctx.Pick(144, 6000)
 	moves := ctx.Pick(30, 100)
 	workers := ctx.Pick(8, 12)
@@ -917,4 +918,73 @@ func keysOf(m map[string]bool) []string {
 	}
 	sort.Strings(out)
 	return out
+}
+
+// noPositionProbe: the fenced id held a value without a position (a STRING, an
+// empty geometry collection) before the SET. Nothing was within the radius of
+// "its previous position", so no faraway entry may be reported - in particular
+// not for neighbours that happen to sit near latitude 0, longitude 0.
+func noPositionProbe(ctx *core.Ctx, bin string) {
+	s, err := srv.Start(srv.Opts{Bin: bin})
+	if err != nil {
+		ctx.Inconclusive("no-position probe: " + err.Error())
+		return
+	}
+	defer s.Kill9()
+	c, err := respc.Dial(s.Addr(), 5*time.Second)
+	if err != nil {
+		ctx.Inconclusive("no-position probe: " + err.Error())
+		return
+	}
+	defer c.Close()
+	c.Timeout = 10 * time.Second
+	for i, prev := range [][]string{{"STRING", "hello"}, {"OBJECT", `{"type":"GeometryCollection","geometries":[]}`}, {"OBJECT", `{"type":"MultiPoint","coordinates":[]}`}} {
+		key, ch := fmt.Sprintf("np%d", i), fmt.Sprintf("npch%d", i)
+		c.Do("SET", key, "b", "POINT", "0.0001", "0.0001")
+		c.Do("SET", key, "far", "POINT", "50.001", "50")
+		if r, err := c.Do("SETCHAN", ch, "NEARBY", key, "FENCE", "ROAM", key, "*", "1000"); err != nil || r.IsErr() {
+			ctx.Inconclusive("no-position probe: SETCHAN failed")
+			return
+		}
+		if r, err := c.Do(append([]string{"SET", key, "a"}, prev...)...); err != nil || r.IsErr() {
+			ctx.Count("no_position_predecessor_refused", 1)
+			continue
+		}
+		sub, err := respc.Dial(s.Addr(), 5*time.Second)
+		if err != nil {
+			ctx.Inconclusive("no-position probe: " + err.Error())
+			return
+		}
+		sub.Send("SUBSCRIBE", ch)
+		sub.RecvTimeout(5 * time.Second)
+		c.Do("SET", key, "a", "POINT", "50", "50")
+		var msgs []string
+		for {
+			rp, err := sub.RecvTimeout(1200 * time.Millisecond)
+			if err != nil {
+				break
+			}
+			if rp.Kind == '*' && len(rp.Arr) == 3 {
+				msgs = append(msgs, rp.Arr[2].Str)
+			}
+		}
+		sub.Close()
+		ctx.Eval(1)
+		ctx.Distinct("no-position|" + prev[0] + strconv.Itoa(i))
+		sawNear := false
+		for _, m := range msgs {
+			if strings.Contains(m, `"faraway":{`) {
+				ctx.Violation("roam:faraway-extra:no-previous-position", fmt.Sprintf("fence [NEARBY %s FENCE ROAM %s * 1000]; `SET %s a %s` (no position), then `SET %s a POINT 50 50`: a faraway entry is reported although a was nowhere before: %s", key, key, key, strings.Join(prev, " "), key, m),
+					map[string]any{"predecessor": prev, "message": m})
+				return
+			}
+			if strings.Contains(m, `"nearby":{`) && strings.Contains(m, `"id":"far"`) {
+				sawNear = true
+			}
+		}
+		if !sawNear {
+			ctx.Violation("roam:nearby-missing:no-previous-position", fmt.Sprintf("fence [NEARBY %s FENCE ROAM %s * 1000]; `SET %s a %s`, then `SET %s a POINT 50 50`: no nearby entry for far (111 m away); received %v", key, key, key, strings.Join(prev, " "), key, msgs), nil)
+			return
+		}
+	}
 }
